@@ -253,3 +253,11 @@ pub(crate) enum WriteOp<K, V> {
     },
     Remove(KvEntry<K, V>),
 }
+
+// Verification hooks (compiled only with `--cfg mini_moka_verif`).
+#[cfg(mini_moka_verif)]
+impl<K> KeyDate<K> {
+    pub(crate) fn verif_entry_info(&self) -> &EntryInfo<K> {
+        &self.entry_info
+    }
+}
